@@ -114,6 +114,11 @@ theorem c01_src_depth_limit (depth : Nat) :
   · simp only [Generated.depthTooLarge, decide_eq_false_iff_not] <;> omega
   · simp only [Generated.depthTooLarge, decide_eq_decide] <;> omega
 
+/-- concrete values of the regenerated definitions (non-vacuity of the ranges in `c01_src_descriptors_fit`; 1023 bits,
+4 refs, mask 7 are the largest admissible inputs). -/
+example : Generated.bitsDescriptor 1023 = 255 ∧ Generated.bitsDescriptor 8 = 2 ∧ Generated.refsDescriptor 4 true 7 = 236 ∧
+    Generated.depthTooLarge 1023 = false ∧ Generated.depthTooLarge 1024 = true := by decide
+
 end Src
 
 end TonVerif.Properties.C01
